@@ -25,7 +25,7 @@ import (
 func init() {
 	Registry["C08"] = &Check{
 		Scenarios: c08Scenarios,
-		Rule: "Two relay scenarios: a handler of connection A blocks inside a Write to connection B (whose peer has stopped reading) while B keeps receiving - under a Server with and without ReadTimeout / WriteTimeout. In the blocked-handler mode (two of the six arrival patterns) an application goroutine polls ServeMux.ErrorReports() at every instant. Server.Serve on a scripted listener with two connections (both accepted, or one accepted and one attached with diam.NewConn); three requests per connection (re-auth, device-watchdog, capabilities-exchange, in that order) delivered as {one segment, one segment per message, split at the header/body border, first message in 10-byte pieces, first message one byte at a time}; instrumented handlers record enter/exit around a scheduling point and answer; variants: plain, and the first handler on connection A blocked for ever; in one arrival pattern the first handler of connection B requests CloseNotify (so the rest of B's messages pass through the reader switch); one arrival pattern runs on a zero Server{} (DefaultServeMux, default dictionary); every schedule up to preemption bound 3 (thorough 6). The environment is eager (all fragments queued before the server starts; a Read never crosses a fragment boundary), because the arrival instant of a fragment is unobservable to a per-connection single-threaded reader; what is explored is every interleaving of the accept loop, the per-connection readers and the handlers.",
+		Rule: "Two relay scenarios with a multistream (SCTP) connection B, forwarded to with Message.WriteTo and with the raw Conn.Write adaptor. Two relay scenarios: a handler of connection A blocks inside a Write to connection B (whose peer has stopped reading) while B keeps receiving - under a Server with and without ReadTimeout / WriteTimeout. In the blocked-handler mode (two of the six arrival patterns) an application goroutine polls ServeMux.ErrorReports() at every instant. Server.Serve on a scripted listener with two connections (both accepted, or one accepted and one attached with diam.NewConn); three requests per connection (re-auth, device-watchdog, capabilities-exchange, in that order) delivered as {one segment, one segment per message, split at the header/body border, first message in 10-byte pieces, first message one byte at a time}; instrumented handlers record enter/exit around a scheduling point and answer; variants: plain, and the first handler on connection A blocked for ever; in one arrival pattern the first handler of connection B requests CloseNotify (so the rest of B's messages pass through the reader switch); one arrival pattern runs on a zero Server{} (DefaultServeMux, default dictionary); every schedule up to preemption bound 3 (thorough 6). The environment is eager (all fragments queued before the server starts; a Read never crosses a fragment boundary), because the arrival instant of a fragment is unobservable to a per-connection single-threaded reader; what is explored is every interleaving of the accept loop, the per-connection readers and the handlers.",
 		Assume: []string{"data-race freedom between visible operations (audited separately with -race)"},
 		QuickBudget: 120, ThoroughBudget: 2400,
 	}
@@ -381,6 +381,7 @@ func c08Scenarios(tier string) []*Scenario {
 		}
 	}
 	out = append(out, c08RelayBlocked(false, bound), c08RelayBlocked(true, bound))
+	out = append(out, c08RelayBlockedMulti(false, bound), c08RelayBlockedMulti(true, bound))
 	return out
 }
 
@@ -993,4 +994,70 @@ func c15MultistreamFault(fault string, bound int) *Scenario {
 	}
 	return &Scenario{Name: "faults/multistream-connection/" + fault, Body: body, Check: check, Bound: bound, Horizon: 10 * time.Second,
 		Outcome: func(s *vs.Sched) string { return fmt.Sprintf("handledA=%d reports=%d B=%v", c15ms.handledA, c15ms.reports, answersOn(c15ms.b)) }}
+}
+
+// c08RelayBlockedMulti: as c08RelayBlocked, but connection B is a multistream (SCTP) association
+// and A's handler forwards either with Message.WriteTo or with the raw Conn.Write of the
+// serialised bytes (the io.Writer adaptor of the association). B's peer does not read; messages
+// that keep arriving on B (on two streams) must still be dispatched.
+func c08RelayBlockedMulti(raw bool, bound int) *Scenario {
+	var be *vnet.SCTP
+	body := func() {
+		c08rb.handledB, c08rb.relayed = nil, false
+		a := vnet.NewConn("A")
+		a.Pieces = 1
+		be = vnet.NewSCTP("B")
+		be.WriteBlocked = true
+		var connB diam.Conn
+		lis := vnet.NewListener()
+		mux := diam.NewServeMux()
+		mux.HandleFunc("ALL", func(c diam.Conn, m *diam.Message) {
+			if m.Header.HopByHopID == 2 {
+				if connB == nil {
+					connB = c
+					vs.Touch(be, "connB-known")
+				}
+				c08rb.handledB = append(c08rb.handledB, m.Header.EndToEndID)
+				vs.Event("handler on B got message %d", m.Header.EndToEndID)
+				return
+			}
+			vs.BlockObj("wait-B-known", be, func() bool { return connB != nil })
+			vs.Event("handler on A relays to B (whose peer does not read)")
+			c08rb.relayed = true
+			if raw {
+				b, _ := m.Serialize()
+				connB.Write(b) // blocks for ever
+			} else {
+				m.WriteTo(connB) // blocks for ever
+			}
+		})
+		srv := &diam.Server{Handler: mux, Dict: dict.Default}
+		be.Deliver(3, srvReq(1, 0))
+		a.Deliver(srvReq(0, 0))
+		lis.Offer(vnet.AcceptItem{NetConn: diam.NewSCTPConnBackend(be)})
+		lis.Offer(vnet.AcceptItem{Conn: a})
+		vs.GoNamed("serve", false, func() { srv.Serve(lis) })
+		vs.GoNamed("peerB", true, func() {
+			vs.BlockObj("wait-relay-stuck", be, func() bool { return be.InWrite > 0 })
+			vs.Event("peer B sends two more requests while A's handler is stuck writing to B")
+			be.Deliver(3, srvReq(1, 1))
+			vs.Yield("env")
+			be.Deliver(5, srvReq(1, 2))
+		})
+	}
+	check := func(s *vs.Sched) string {
+		var v []string
+		if !c08rb.relayed {
+			v = append(v, "harness: the relay never happened")
+		}
+		if fmt.Sprint(c08rb.handledB) != "[1 2 3]" {
+			v = append(v, fmt.Sprintf("multistream connection B: messages %v handled, the peer sent [1 2 3] (the last two while a handler of connection A was blocked writing to B)", c08rb.handledB))
+		}
+		for _, p := range s.Panics() {
+			v = append(v, "panic: "+p)
+		}
+		return strings.Join(v, " | ")
+	}
+	return &Scenario{Name: fmt.Sprintf("dispatch/relay-to-a-multistream-peer-that-does-not-read/raw-write=%v", raw), Body: body, Check: check, Bound: bound, Horizon: 10 * time.Second,
+		Outcome: func(s *vs.Sched) string { return fmt.Sprint(c08rb.handledB) }}
 }
